@@ -201,6 +201,7 @@ type c09ChunkReader struct {
 	rows    []parquet.Row
 	sizes   []int
 	eofLast bool // return io.EOF together with the last rows
+	zeroOK  bool // a size entry 0 answers (0, nil)
 }
 
 func (c *c09ChunkReader) ReadRows(dst []parquet.Row) (int, error) {
@@ -209,6 +210,10 @@ func (c *c09ChunkReader) ReadRows(dst []parquet.Row) (int, error) {
 	}
 	want := len(dst)
 	if len(c.sizes) > 0 {
+		if c.zeroOK && c.sizes[0] == 0 {
+			c.sizes = c.sizes[1:]
+			return 0, nil
+		}
 		want = max(1, c.sizes[0])
 		c.sizes = c.sizes[1:]
 	}
@@ -1368,6 +1373,170 @@ func c09CmpChecks(ctx *core.Ctx, r *rand.Rand, d *drv.Driver, p *c09Pending, n i
 	}
 }
 
+// ---------------------------------------------------------------- sources answering (0, nil)
+
+// A RowReader may return fewer rows than requested with a nil error; zero rows is the extreme.
+// bufferedRowReader.read takes (0, nil) for a refill and head() then re-reads the first row of the
+// previous fill. Outside the property as stated (sorted inputs, any batch size): recorded as an
+// observation; the two-reader behaviour is compared with the as-is mirror (MergeZero.lean).
+func c09ZeroChecks(ctx *core.Ctx, r *rand.Rand, d *drv.Driver, p *c09Pending, n int) {
+	// fact probe: does bufferedRowReader.read retry on (0, nil)? (proposed_fixes/C09_zero_row_read.diff)
+	// If it does, (0, nil) answers are invisible: the run must equal the main mirror without the zero
+	// entries and the oracle applies at L1; if not, the as-is mirror (MergeZero.lean) is compared.
+	retries := func() (ok bool) {
+		defer func() {
+			if recover() != nil {
+				ok = false
+			}
+		}()
+		mk := func(keys []int64, inp int32, sizes []int) parquet.RowReader {
+			rs := make([]parquet.Row, len(keys))
+			for s, key := range keys {
+				rs[s] = c09ToRow(c09L2Cols, c09Row{K: [3]int64{key}, Inp: inp, Seq: int32(s)})
+			}
+			return &c09ChunkReader{rows: rs, sizes: sizes, zeroOK: true}
+		}
+		rr := parquet.MergeRowReaders([]parquet.RowReader{mk([]int64{1, 3, 5, 7}, 0, []int{2, 0, 2}), mk([]int64{2, 4, 6, 8}, 1, []int{2, 2, 2})}, c09L2Compare)
+		buf := make([]parquet.Row, 10)
+		var got []int64
+		for calls := 0; calls < 20; calls++ {
+			m, e := rr.ReadRows(buf)
+			for _, row := range buf[:m] {
+				got = append(got, row[0].Int64())
+			}
+			if e != nil {
+				break
+			}
+		}
+		return fmt.Sprint(got) == "[1 2 3 4 5 6 7 8]"
+	}()
+	ctx.Hist("zero-reads-retried-by-library", strconv.FormatBool(retries))
+	for i := 0; i < n; i++ {
+		k := 2
+		if i%4 == 3 {
+			k = 3
+		}
+		c := &c09L2Case{}
+		for j := 0; j < k; j++ {
+			c.keys = append(c.keys, c09SortedKeys(r, 1+r.Intn(30), 0, 20))
+			var sizes []int
+			for x := 1 + r.Intn(8); x > 0; x-- {
+				sizes = append(sizes, []int{0, 0, 1, 2, 3, 24}[r.Intn(6)])
+			}
+			if k == 3 && j == 0 && r.Intn(2) == 0 {
+				sizes[0] = 0
+			}
+			c.refills = append(c.refills, sizes)
+		}
+		c.batches = []int{1 + r.Intn(12)}
+		text := "zero " + c.text()
+		ctx.Case(text, true)
+		ctx.Hist("zero-reads", strconv.Itoa(k))
+		var rows []c09Row
+		var batches []string
+		var used []int
+		err := func() (err error) {
+			defer func() {
+				if q := recover(); q != nil {
+					err = fmt.Errorf("panic: %v", q)
+				}
+			}()
+			readers := make([]parquet.RowReader, k)
+			total := 0
+			for j, ks := range c.keys {
+				rs := make([]parquet.Row, len(ks))
+				for s, key := range ks {
+					rs[s] = c09ToRow(c09L2Cols, c09Row{K: [3]int64{key}, Inp: int32(j), Seq: int32(s)})
+				}
+				readers[j] = &c09ChunkReader{rows: rs, sizes: append([]int(nil), c.refills[j]...), zeroOK: true}
+				total += len(ks)
+			}
+			rr := parquet.MergeRowReaders(readers, c09L2Compare)
+			buf := make([]parquet.Row, c.batches[0])
+			for calls := 0; calls < 4*total+40; calls++ {
+				m, e := rr.ReadRows(buf)
+				used = append(used, len(buf))
+				var sb strings.Builder
+				if m == 0 {
+					sb.WriteByte('-')
+				}
+				for x, row := range buf[:m] {
+					rw, derr := c09FromRow(1, row)
+					if derr != nil {
+						return derr
+					}
+					rows = append(rows, rw)
+					if x > 0 {
+						sb.WriteByte(',')
+					}
+					fmt.Fprintf(&sb, "%d:%d", rw.Inp, rw.Seq)
+				}
+				batches = append(batches, sb.String())
+				if e == io.EOF {
+					return nil
+				}
+				if e != nil {
+					return e
+				}
+			}
+			return errors.New("no io.EOF")
+		}()
+		if err != nil {
+			if retries {
+				ctx.Fail("L1", "zero-row-read error "+c09ErrClass(err), "MergeRowReaders over a source that answers (0, nil): "+err.Error(), map[string]any{"case": text})
+			} else {
+				ctx.Observe(fmt.Sprintf("zero-row-read readers=%d %s", min(k, 3), c09ErrClass(err)), "MergeRowReaders over a source that answers (0, nil): "+err.Error(), map[string]any{"case": text})
+			}
+			continue
+		}
+		oc := &c09Case{Cols: c09L2Cols, MCols: 1, Path: "readers"}
+		for j, ks := range c.keys {
+			in := make([]c09Row, len(ks))
+			for s, key := range ks {
+				in[s] = c09Row{K: [3]int64{key}, Inp: int32(j), Seq: int32(s)}
+			}
+			oc.Inputs = append(oc.Inputs, in)
+		}
+		if key, what := c09Oracle(oc, rows); key != "" {
+			if retries {
+				ctx.Fail("L1", "zero-row-read "+key, "MergeRowReaders over a source that answers (0, nil): "+what, map[string]any{"case": text, "output": strings.Join(batches, "|")})
+			} else {
+				ctx.Observe(fmt.Sprintf("zero-row-read readers=%d %s", min(k, 3), key), "MergeRowReaders over a source that answers (0, nil): "+what, map[string]any{"case": text, "output": strings.Join(batches, "|")})
+			}
+		}
+		if retries {
+			// the library skips (0, nil) answers: same as the main mirror without the zero entries
+			nz := make([][]int, len(c.refills))
+			for j, sz := range c.refills {
+				for _, x := range sz {
+					if x != 0 {
+						nz[j] = append(nz[j], x)
+					}
+				}
+			}
+			req := fmt.Sprintf("merge.run %s %s %s", c09Lists(c.keys, func(x int64) string { return strconv.FormatInt(x, 10) }), core.JoinInts(used), c09Lists(nz, strconv.Itoa))
+			want := "ok 1 " + strings.Join(batches, "|")
+			p.reqs = append(p.reqs, req)
+			p.pend = append(p.pend, func(ans string) {
+				if i := strings.LastIndexByte(ans, ' '); i < 0 || ans[:i] != want {
+					ctx.Fail("L2", "merge-zero-read-skipped-mirror", "MergeRowReaders over (0, nil) sources differs from the mirror run without the zero entries", map[string]any{"case": text, "request": req, "impl": want, "model": ans})
+				}
+			})
+			p.flush(ctx, d, false)
+		} else if k == 2 {
+			req := fmt.Sprintf("merge.runz %s %s %s", c09Lists(c.keys, func(x int64) string { return strconv.FormatInt(x, 10) }), core.JoinInts(used), c09Lists(c.refills, strconv.Itoa))
+			want := "ok " + strings.Join(batches, "|")
+			p.reqs = append(p.reqs, req)
+			p.pend = append(p.pend, func(ans string) {
+				if ans != want {
+					ctx.Fail("L2", "merge2-zero-read-mirror", "mergedRowReader2 over (0, nil) sources differs from the as-is Lean mirror", map[string]any{"case": text, "request": req, "impl": want, "model": ans})
+				}
+			})
+			p.flush(ctx, d, false)
+		}
+	}
+}
+
 // ---------------------------------------------------------------- L2: runLength and dedupe
 
 func c09RunLengthChecks(ctx *core.Ctx, r *rand.Rand, d *drv.Driver, p *c09Pending, n int) {
@@ -1538,6 +1707,10 @@ func RunC09(ctx *core.Ctx) {
 				p.flush(ctx, d, false)
 			}
 			p.flush(ctx, d, true)
+			if w == 2 {
+				c09ZeroChecks(ctx, ctx.Rand("c09-zero"), d, p, ctx.Scale(3000, 40000))
+				p.flush(ctx, d, true)
+			}
 			if w == 1 {
 				c09CmpChecks(ctx, ctx.Rand("c09-cmp"), d, p, ctx.Scale(20000, 300000))
 				p.flush(ctx, d, true)
